@@ -50,3 +50,32 @@ fn c14_oversize_message_is_refused() {
         assert_eq!(r.ok(), Some(true), "len {}", len);
     }
 }
+
+// ---- C08: decompression is total and returns exactly width*height*4 bytes
+use rdp::core::event::BitmapEvent;
+fn bmp(width: u16, height: u16, bpp: u16, is_compress: bool, data: Vec<u8>) -> BitmapEvent {
+    BitmapEvent { dest_left: 0, dest_top: 0, dest_right: 0, dest_bottom: 0, width, height, bpp, is_compress, data }
+}
+fn total(width: u16, height: u16, bpp: u16, is_compress: bool, data: Vec<u8>) {
+    let r = std::panic::catch_unwind(move || bmp(width, height, bpp, is_compress, data).decompress());
+    match r {
+        Err(_) => panic!("decompress panicked for {}x{} bpp {} compress {}", width, height, bpp, is_compress),
+        Ok(Ok(v)) => assert_eq!(v.len(), width as usize * height as usize * 4, "{}x{} bpp {}", width, height, bpp),
+        Ok(Err(_)) => ()
+    }
+}
+#[test] fn c08_raw32_wrong_size() { total(2, 2, 32, false, vec![1, 2, 3]); }
+#[test] fn c08_raw16_short_data() { total(2, 2, 16, false, vec![1, 2, 3]); }
+#[test] fn c08_raw16_u16_overflow() { total(300, 300, 16, false, vec![0; 300 * 300 * 2]); }
+#[test] fn c08_rle32_empty_image() { total(0, 0, 32, true, vec![0x10]); }
+#[test] fn c08_rle32_run_past_line() { total(1, 1, 32, true, vec![0x10, 0x0f, 0x0f, 0x0f, 0x0f]); }
+#[test] fn c08_rle32_run_past_line_second_row() { total(1, 2, 32, true, vec![0x10, 0x01, 0x0f, 0x01, 0x0f, 0x01, 0x0f, 0x01, 0x0f]); }
+#[test] fn c08_rle16_unknown_opcode() { total(4, 4, 16, true, vec![0xA0, 0, 0, 0]); }
+#[test] fn c08_rle16_bicolour_count_overflow() { total(300, 300, 16, true, vec![0xF8, 0xFF, 0xFF, 1, 0, 2, 0]); }
+// ---- C09: uncompressed 32 bpp bitmaps are bottom-up on the wire and must come out top-down
+#[test]
+fn c09_raw32_is_flipped() {
+    let data = vec![1, 1, 1, 1, 2, 2, 2, 2]; // 1x2: wire row 0 is the BOTTOM row
+    let v = bmp(1, 2, 32, false, data).decompress().unwrap();
+    assert_eq!(v, vec![2, 2, 2, 2, 1, 1, 1, 1]);
+}
